@@ -7,6 +7,7 @@ import (
 	"errors"
 	"fmt"
 	"io"
+	"math"
 	"math/big"
 	"regexp"
 	"strconv"
@@ -734,7 +735,11 @@ func (r *reader) read(src []byte) {
 			r.mode = sharpNumMode
 			r.sharpNum = int(b - '0')
 		case sharpNumByte:
-			r.sharpNum = r.sharpNum*10 + int(b-'0')
+			// Stop accumulating before the int overflows and wraps to a
+			// negative value. Anything this large is over every limit.
+			if r.sharpNum < math.MaxInt32 {
+				r.sharpNum = r.sharpNum*10 + int(b-'0')
+			}
 		case radixByte:
 			if r.sharpNum < 2 || 36 < r.sharpNum {
 				r.raise("%d is not a valid radix, a radix is between 2 and 36", r.sharpNum)
